@@ -144,24 +144,15 @@ class MinSumLDPCDecoder(BeliefPropagationDecoder):
                 signs = torch.sign(vc_group_messages)
                 magnitudes = torch.abs(vc_group_messages)
 
-                # 2. Compute output signs (XOR of input signs)
-                sign_product = torch.prod(signs, dim=2, keepdim=True)
-                output_signs = sign_product * signs  # Extrinsic sign
+                # `ext_ce` already lists, for every edge of the check, the *other* edges of that check, so
+                # each row of vc_group_messages holds exactly the extrinsic inputs of one output message
+                # 2. Output sign: product of the extrinsic input signs
+                output_signs = torch.prod(signs, dim=2)
 
-                # 3. Compute output magnitudes (min of input magnitudes)
-                # For each output, take min over all other inputs (extrinsic minimum)
-                min_magnitudes = torch.zeros_like(vc_group_messages)
-                for i in range(vc_group_messages.size(2)):
-                    # Create mask to exclude current position
-                    mask = torch.ones_like(vc_group_messages, dtype=torch.bool)
-                    mask[:, :, i] = False
+                # 3. Output magnitude: minimum of the extrinsic input magnitudes
+                min_magnitudes, _ = torch.min(magnitudes, dim=2)
 
-                    # Find minimum over other positions
-                    other_magnitudes = magnitudes.masked_select(mask).view(batch_size, deg * members, -1)
-                    min_vals, _ = torch.min(other_magnitudes, dim=2)
-                    min_magnitudes[:, :, i] = min_vals
-
-                # 4. Combine signs and magnitudes
+                # 4. Combine signs and magnitudes (one message per edge)
                 v_messages = output_signs * min_magnitudes
 
                 # 5. Apply scaling factor and offset (for improved Min-Sum variants)
